@@ -315,6 +315,22 @@ predefine_macro(CPPParser& parser, const string& inoption) {
   parser._manifests[macro->_name] = macro;
 }
 
+/**
+ * Returns the absolute name of an output file.  The directory is resolved the
+ * way the operating system does it (a ".." that follows a symbolic link is
+ * not collapsed textually); the file itself need not exist yet.
+ */
+static Filename
+get_output_filename(const char *arg) {
+  Filename filename = Filename::from_os_specific(arg);
+  Filename dirname = filename.get_dirname();
+  if (dirname.empty()) {
+    dirname = ".";
+  }
+  dirname.make_canonical();
+  return Filename(dirname, filename.get_basename());
+}
+
 int
 main(int argc, char **argv) {
   preprocess_argv(argc, argv);
@@ -365,18 +381,15 @@ main(int argc, char **argv) {
       break;
 
     case CO_oc:
-      output_code_filename = Filename::from_os_specific(optarg);
-      output_code_filename.make_absolute();
+      output_code_filename = get_output_filename(optarg);
       break;
 
     case CO_od:
-      output_data_filename = Filename::from_os_specific(optarg);
-      output_data_filename.make_absolute();
+      output_data_filename = get_output_filename(optarg);
       break;
 
     case CO_oh:
-      output_text_filename = Filename::from_os_specific(optarg);
-      output_text_filename.make_absolute();
+      output_text_filename = get_output_filename(optarg);
       break;
 
     case CO_srcdir:
